@@ -736,8 +736,8 @@ def main(chk: Check) -> None:
     # one Hypothesis run per edit kind (same family: the case format and run_case are identical), so every kind the
     # statement lists gets its share of the budget instead of whatever the generator happens to favour
     for k in range(len(_EDITS)):
-        chk.explore("edit", _edit_case(k), run_edit, quick=12, thorough=400)
+        chk.explore("edit", _edit_case(k), run_edit, quick=18, thorough=400)
         if chk.replay is not None:
             break
-    chk.explore("xproc", _xproc_case, run_xproc, quick=3, thorough=48, shrink=False)
-    chk.explore("inherit", _inherit_case(), run_inherit, quick=40, thorough=800)
+    chk.explore("xproc", _xproc_case, run_xproc, quick=4, thorough=48, shrink=False)
+    chk.explore("inherit", _inherit_case(), run_inherit, quick=60, thorough=800)
